@@ -1,0 +1,1150 @@
+	.file	"test_bigint.c"
+	.text
+.Ltext0:
+	.file 0 "/repo/aldor/aldor/src" "test/test_bigint.c"
+	.section	.rodata
+.LC0:
+	.string	"testToFromString"
+.LC1:
+	.string	"testBIntNew"
+	.text
+	.globl	bintTestSuite
+	.type	bintTestSuite, @function
+bintTestSuite:
+.LFB0:
+	.file 1 "test/test_bigint.c"
+	.loc 1 10 1
+	.cfi_startproc
+	pushq	%rbp
+	.cfi_def_cfa_offset 16
+	.cfi_offset 6, -16
+	movq	%rsp, %rbp
+	.cfi_def_cfa_register 6
+	.loc 1 11 2
+	call	init@PLT
+	.loc 1 12 2
+	leaq	testToFromString(%rip), %rax
+	movq	%rax, %rsi
+	leaq	.LC0(%rip), %rax
+	movq	%rax, %rdi
+	call	showTest@PLT
+	.loc 1 13 2
+	leaq	testBIntNew(%rip), %rax
+	movq	%rax, %rsi
+	leaq	.LC1(%rip), %rax
+	movq	%rax, %rdi
+	call	showTest@PLT
+	.loc 1 14 2
+	call	fini@PLT
+	.loc 1 15 1
+	nop
+	popq	%rbp
+	.cfi_def_cfa 7, 8
+	ret
+	.cfi_endproc
+.LFE0:
+	.size	bintTestSuite, .-bintTestSuite
+	.section	.rodata
+.LC2:
+	.string	"0"
+.LC3:
+	.string	"1"
+.LC4:
+	.string	"-1"
+.LC5:
+	.string	"1000"
+.LC6:
+	.string	"2349587234"
+.LC7:
+	.string	"23434534"
+.LC8:
+	.string	"2343453477777777777777"
+.LC9:
+	.string	"-1000"
+.LC10:
+	.string	"-2349587234"
+.LC11:
+	.string	"-23434534"
+.LC12:
+	.string	"-2343453477777777777777"
+	.text
+	.type	testToFromString, @function
+testToFromString:
+.LFB1:
+	.loc 1 20 1
+	.cfi_startproc
+	pushq	%rbp
+	.cfi_def_cfa_offset 16
+	.cfi_offset 6, -16
+	movq	%rsp, %rbp
+	.cfi_def_cfa_register 6
+	.loc 1 21 2
+	leaq	.LC2(%rip), %rax
+	movq	%rax, %rdi
+	call	testCanonical
+	.loc 1 22 2
+	leaq	.LC3(%rip), %rax
+	movq	%rax, %rdi
+	call	testCanonical
+	.loc 1 23 2
+	leaq	.LC4(%rip), %rax
+	movq	%rax, %rdi
+	call	testCanonical
+	.loc 1 24 2
+	leaq	.LC5(%rip), %rax
+	movq	%rax, %rdi
+	call	testCanonical
+	.loc 1 25 2
+	leaq	.LC6(%rip), %rax
+	movq	%rax, %rdi
+	call	testCanonical
+	.loc 1 26 2
+	leaq	.LC7(%rip), %rax
+	movq	%rax, %rdi
+	call	testCanonical
+	.loc 1 27 2
+	leaq	.LC8(%rip), %rax
+	movq	%rax, %rdi
+	call	testCanonical
+	.loc 1 29 2
+	leaq	.LC9(%rip), %rax
+	movq	%rax, %rdi
+	call	testCanonical
+	.loc 1 30 2
+	leaq	.LC10(%rip), %rax
+	movq	%rax, %rdi
+	call	testCanonical
+	.loc 1 31 2
+	leaq	.LC11(%rip), %rax
+	movq	%rax, %rdi
+	call	testCanonical
+	.loc 1 32 2
+	leaq	.LC12(%rip), %rax
+	movq	%rax, %rdi
+	call	testCanonical
+	.loc 1 33 1
+	nop
+	popq	%rbp
+	.cfi_def_cfa 7, 8
+	ret
+	.cfi_endproc
+.LFE1:
+	.size	testToFromString, .-testToFromString
+	.section	.rodata
+.LC13:
+	.string	"check "
+	.text
+	.type	testCanonical, @function
+testCanonical:
+.LFB2:
+	.loc 1 37 1
+	.cfi_startproc
+	pushq	%rbp
+	.cfi_def_cfa_offset 16
+	.cfi_offset 6, -16
+	movq	%rsp, %rbp
+	.cfi_def_cfa_register 6
+	subq	$32, %rsp
+	movq	%rdi, -24(%rbp)
+	.loc 1 38 11
+	movq	-24(%rbp), %rax
+	movq	%rax, %rdi
+	call	bintFrString@PLT
+	movq	%rax, -8(%rbp)
+	.loc 1 39 17
+	movq	-8(%rbp), %rax
+	movq	%rax, %rdi
+	call	bintToString@PLT
+	movq	%rax, -16(%rbp)
+	.loc 1 40 2
+	movq	-24(%rbp), %rax
+	movq	%rax, %rsi
+	leaq	.LC13(%rip), %rax
+	movq	%rax, %rdi
+	call	strConcat@PLT
+	movq	%rax, %rcx
+	movq	-16(%rbp), %rdx
+	movq	-24(%rbp), %rax
+	movq	%rax, %rsi
+	movq	%rcx, %rdi
+	call	testStringEqual@PLT
+	.loc 1 42 1
+	nop
+	leave
+	.cfi_def_cfa 7, 8
+	ret
+	.cfi_endproc
+.LFE2:
+	.size	testCanonical, .-testCanonical
+	.section	.rodata
+.LC14:
+	.string	"bit"
+.LC15:
+	.string	"pos"
+.LC16:
+	.string	"neg"
+.LC17:
+	.string	"sum.. "
+	.text
+	.type	testBIntNew, @function
+testBIntNew:
+.LFB3:
+	.loc 1 46 1
+	.cfi_startproc
+	pushq	%rbp
+	.cfi_def_cfa_offset 16
+	.cfi_offset 6, -16
+	movq	%rsp, %rbp
+	.cfi_def_cfa_register 6
+	subq	$32, %rsp
+	.loc 1 48 9
+	movl	$0, -4(%rbp)
+	.loc 1 48 2
+	jmp	.L5
+.L6:
+.LBB2:
+	.loc 1 51 7 discriminator 3
+	movl	-4(%rbp), %eax
+	movl	$1, %edx
+	movl	%eax, %ecx
+	salq	%cl, %rdx
+	movq	%rdx, %rax
+	movq	%rax, %rdi
+	call	bintNew@PLT
+	movq	%rax, -16(%rbp)
+	.loc 1 52 3 discriminator 3
+	movl	-4(%rbp), %eax
+	movslq	%eax, %rdx
+	movq	-16(%rbp), %rax
+	movq	%rdx, %rsi
+	movq	%rax, %rdi
+	call	bintBit@PLT
+	movl	%eax, %esi
+	leaq	.LC14(%rip), %rax
+	movq	%rax, %rdi
+	call	testTrue@PLT
+	.loc 1 53 8 discriminator 3
+	movl	-4(%rbp), %eax
+	movq	$-1, %rdx
+	movl	%eax, %ecx
+	salq	%cl, %rdx
+	movq	%rdx, %rax
+	movq	%rax, %rdi
+	call	bintNew@PLT
+	movq	%rax, -24(%rbp)
+	.loc 1 54 3 discriminator 3
+	movq	-16(%rbp), %rax
+	movq	%rax, %rdi
+	call	bintIsPos@PLT
+	movl	%eax, %esi
+	leaq	.LC15(%rip), %rax
+	movq	%rax, %rdi
+	call	testTrue@PLT
+	.loc 1 55 3 discriminator 3
+	movq	-24(%rbp), %rax
+	movq	%rax, %rdi
+	call	bintIsNeg@PLT
+	movl	%eax, %esi
+	leaq	.LC16(%rip), %rax
+	movq	%rax, %rdi
+	call	testTrue@PLT
+	.loc 1 56 3 discriminator 3
+	movq	-24(%rbp), %rdx
+	movq	-16(%rbp), %rax
+	movq	%rdx, %rsi
+	movq	%rax, %rdi
+	call	bintPlus@PLT
+	movq	%rax, %rdx
+	movq	bint0(%rip), %rax
+	movq	%rdx, %rsi
+	movq	%rax, %rdi
+	call	bintEQ@PLT
+	movl	%eax, %esi
+	leaq	.LC17(%rip), %rax
+	movq	%rax, %rdi
+	call	testTrue@PLT
+.LBE2:
+	.loc 1 48 43 discriminator 3
+	addl	$1, -4(%rbp)
+.L5:
+	.loc 1 48 16 discriminator 1
+	movl	-4(%rbp), %eax
+	cmpl	$61, %eax
+	jbe	.L6
+	.loc 1 58 1
+	nop
+	nop
+	leave
+	.cfi_def_cfa 7, 8
+	ret
+	.cfi_endproc
+.LFE3:
+	.size	testBIntNew, .-testBIntNew
+.Letext0:
+	.file 2 "/usr/lib/gcc/x86_64-linux-gnu/12/include/stddef.h"
+	.file 3 "./cport.h"
+	.file 4 "./axlgen.h"
+	.file 5 "./bigint.h"
+	.file 6 "test/testlib.h"
+	.file 7 "./strops.h"
+	.section	.debug_info,"",@progbits
+.Ldebug_info0:
+	.long	0x336
+	.value	0x5
+	.byte	0x1
+	.byte	0x8
+	.long	.Ldebug_abbrev0
+	.uleb128 0xc
+	.long	.LASF41
+	.byte	0xc
+	.long	.LASF0
+	.long	.LASF1
+	.quad	.Ltext0
+	.quad	.Letext0-.Ltext0
+	.long	.Ldebug_line0
+	.uleb128 0xd
+	.byte	0x4
+	.byte	0x5
+	.string	"int"
+	.uleb128 0x2
+	.byte	0x1
+	.byte	0x8
+	.long	.LASF2
+	.uleb128 0x2
+	.byte	0x2
+	.byte	0x7
+	.long	.LASF3
+	.uleb128 0x2
+	.byte	0x4
+	.byte	0x7
+	.long	.LASF4
+	.uleb128 0x2
+	.byte	0x8
+	.byte	0x7
+	.long	.LASF5
+	.uleb128 0x2
+	.byte	0x1
+	.byte	0x6
+	.long	.LASF6
+	.uleb128 0x2
+	.byte	0x2
+	.byte	0x5
+	.long	.LASF7
+	.uleb128 0x2
+	.byte	0x8
+	.byte	0x5
+	.long	.LASF8
+	.uleb128 0x7
+	.long	0x6b
+	.uleb128 0x2
+	.byte	0x1
+	.byte	0x6
+	.long	.LASF9
+	.uleb128 0x2
+	.byte	0x4
+	.byte	0x4
+	.long	.LASF10
+	.uleb128 0x2
+	.byte	0x8
+	.byte	0x4
+	.long	.LASF11
+	.uleb128 0x8
+	.long	.LASF13
+	.byte	0x2
+	.byte	0xd6
+	.byte	0x1b
+	.long	0x4a
+	.uleb128 0x2
+	.byte	0x8
+	.byte	0x5
+	.long	.LASF12
+	.uleb128 0x4
+	.long	.LASF14
+	.value	0x14e
+	.byte	0x16
+	.long	0x43
+	.uleb128 0x4
+	.long	.LASF15
+	.value	0x156
+	.byte	0xd
+	.long	0x2e
+	.uleb128 0x4
+	.long	.LASF16
+	.value	0x158
+	.byte	0x10
+	.long	0x80
+	.uleb128 0x4
+	.long	.LASF17
+	.value	0x16a
+	.byte	0xf
+	.long	0x66
+	.uleb128 0x8
+	.long	.LASF18
+	.byte	0x4
+	.byte	0x2e
+	.byte	0x17
+	.long	0xcf
+	.uleb128 0x7
+	.long	0xd4
+	.uleb128 0xe
+	.long	.LASF42
+	.byte	0x40
+	.byte	0x5
+	.byte	0x11
+	.byte	0x8
+	.long	0x112
+	.uleb128 0x5
+	.long	.LASF19
+	.byte	0x12
+	.byte	0x7
+	.long	0x9f
+	.byte	0
+	.uleb128 0x5
+	.long	.LASF20
+	.byte	0x13
+	.byte	0x9
+	.long	0xab
+	.byte	0x8
+	.uleb128 0x5
+	.long	.LASF21
+	.byte	0x14
+	.byte	0x9
+	.long	0xab
+	.byte	0x10
+	.uleb128 0x5
+	.long	.LASF22
+	.byte	0x15
+	.byte	0x8
+	.long	0x11e
+	.byte	0x18
+	.byte	0
+	.uleb128 0x8
+	.long	.LASF23
+	.byte	0x5
+	.byte	0xe
+	.byte	0x14
+	.long	0x93
+	.uleb128 0xf
+	.long	0x112
+	.long	0x12e
+	.uleb128 0x10
+	.long	0x4a
+	.byte	0x9
+	.byte	0
+	.uleb128 0x11
+	.long	.LASF43
+	.byte	0x5
+	.byte	0x4f
+	.byte	0xd
+	.long	0xc3
+	.uleb128 0x3
+	.long	.LASF24
+	.byte	0x5
+	.byte	0x56
+	.byte	0xd
+	.long	0x9f
+	.long	0x155
+	.uleb128 0x1
+	.long	0xc3
+	.uleb128 0x1
+	.long	0xc3
+	.byte	0
+	.uleb128 0x3
+	.long	.LASF25
+	.byte	0x5
+	.byte	0x5f
+	.byte	0xd
+	.long	0xc3
+	.long	0x170
+	.uleb128 0x1
+	.long	0xc3
+	.uleb128 0x1
+	.long	0xc3
+	.byte	0
+	.uleb128 0x3
+	.long	.LASF26
+	.byte	0x5
+	.byte	0x52
+	.byte	0xd
+	.long	0x9f
+	.long	0x186
+	.uleb128 0x1
+	.long	0xc3
+	.byte	0
+	.uleb128 0x3
+	.long	.LASF27
+	.byte	0x5
+	.byte	0x54
+	.byte	0xd
+	.long	0x9f
+	.long	0x19c
+	.uleb128 0x1
+	.long	0xc3
+	.byte	0
+	.uleb128 0x9
+	.long	.LASF30
+	.byte	0xc
+	.long	0x1b1
+	.uleb128 0x1
+	.long	0xb7
+	.uleb128 0x1
+	.long	0x9f
+	.byte	0
+	.uleb128 0x3
+	.long	.LASF28
+	.byte	0x5
+	.byte	0x67
+	.byte	0xd
+	.long	0x9f
+	.long	0x1cc
+	.uleb128 0x1
+	.long	0xc3
+	.uleb128 0x1
+	.long	0xab
+	.byte	0
+	.uleb128 0x3
+	.long	.LASF29
+	.byte	0x5
+	.byte	0x41
+	.byte	0xd
+	.long	0xc3
+	.long	0x1e2
+	.uleb128 0x1
+	.long	0x5f
+	.byte	0
+	.uleb128 0x9
+	.long	.LASF31
+	.byte	0x6
+	.long	0x1fc
+	.uleb128 0x1
+	.long	0xb7
+	.uleb128 0x1
+	.long	0xb7
+	.uleb128 0x1
+	.long	0xb7
+	.byte	0
+	.uleb128 0x3
+	.long	.LASF32
+	.byte	0x7
+	.byte	0x25
+	.byte	0xf
+	.long	0xb7
+	.long	0x217
+	.uleb128 0x1
+	.long	0xb7
+	.uleb128 0x1
+	.long	0xb7
+	.byte	0
+	.uleb128 0x3
+	.long	.LASF33
+	.byte	0x5
+	.byte	0x31
+	.byte	0xf
+	.long	0xb7
+	.long	0x22d
+	.uleb128 0x1
+	.long	0xc3
+	.byte	0
+	.uleb128 0x3
+	.long	.LASF34
+	.byte	0x5
+	.byte	0x32
+	.byte	0xd
+	.long	0xc3
+	.long	0x243
+	.uleb128 0x1
+	.long	0xb7
+	.byte	0
+	.uleb128 0xa
+	.long	.LASF36
+	.byte	0x18
+	.uleb128 0x9
+	.long	.LASF35
+	.byte	0x15
+	.long	0x25e
+	.uleb128 0x1
+	.long	0x66
+	.uleb128 0x1
+	.long	0x25e
+	.byte	0
+	.uleb128 0x7
+	.long	0x263
+	.uleb128 0x12
+	.uleb128 0xa
+	.long	.LASF37
+	.byte	0x17
+	.uleb128 0xb
+	.long	.LASF38
+	.byte	0x2d
+	.quad	.LFB3
+	.quad	.LFE3-.LFB3
+	.uleb128 0x1
+	.byte	0x9c
+	.long	0x2be
+	.uleb128 0x6
+	.string	"i"
+	.byte	0x2f
+	.byte	0x6
+	.long	0x2e
+	.uleb128 0x2
+	.byte	0x91
+	.sleb128 -20
+	.uleb128 0x13
+	.quad	.LBB2
+	.quad	.LBE2-.LBB2
+	.uleb128 0x6
+	.string	"b"
+	.byte	0x32
+	.byte	0x8
+	.long	0xc3
+	.uleb128 0x2
+	.byte	0x91
+	.sleb128 -32
+	.uleb128 0x6
+	.string	"nb"
+	.byte	0x32
+	.byte	0xb
+	.long	0xc3
+	.uleb128 0x2
+	.byte	0x91
+	.sleb128 -40
+	.byte	0
+	.byte	0
+	.uleb128 0xb
+	.long	.LASF39
+	.byte	0x24
+	.quad	.LFB2
+	.quad	.LFE2-.LFB2
+	.uleb128 0x1
+	.byte	0x9c
+	.long	0x305
+	.uleb128 0x14
+	.long	.LASF44
+	.byte	0x1
+	.byte	0x24
+	.byte	0x15
+	.long	0x66
+	.uleb128 0x2
+	.byte	0x91
+	.sleb128 -40
+	.uleb128 0x6
+	.string	"n"
+	.byte	0x26
+	.byte	0x7
+	.long	0xc3
+	.uleb128 0x2
+	.byte	0x91
+	.sleb128 -24
+	.uleb128 0x15
+	.long	.LASF40
+	.byte	0x1
+	.byte	0x27
+	.byte	0x8
+	.long	0x66
+	.uleb128 0x2
+	.byte	0x91
+	.sleb128 -32
+	.byte	0
+	.uleb128 0x16
+	.long	.LASF45
+	.byte	0x1
+	.byte	0x13
+	.byte	0x1
+	.quad	.LFB1
+	.quad	.LFE1-.LFB1
+	.uleb128 0x1
+	.byte	0x9c
+	.uleb128 0x17
+	.long	.LASF46
+	.byte	0x1
+	.byte	0x9
+	.byte	0x1
+	.quad	.LFB0
+	.quad	.LFE0-.LFB0
+	.uleb128 0x1
+	.byte	0x9c
+	.byte	0
+	.section	.debug_abbrev,"",@progbits
+.Ldebug_abbrev0:
+	.uleb128 0x1
+	.uleb128 0x5
+	.byte	0
+	.uleb128 0x49
+	.uleb128 0x13
+	.byte	0
+	.byte	0
+	.uleb128 0x2
+	.uleb128 0x24
+	.byte	0
+	.uleb128 0xb
+	.uleb128 0xb
+	.uleb128 0x3e
+	.uleb128 0xb
+	.uleb128 0x3
+	.uleb128 0xe
+	.byte	0
+	.byte	0
+	.uleb128 0x3
+	.uleb128 0x2e
+	.byte	0x1
+	.uleb128 0x3f
+	.uleb128 0x19
+	.uleb128 0x3
+	.uleb128 0xe
+	.uleb128 0x3a
+	.uleb128 0xb
+	.uleb128 0x3b
+	.uleb128 0xb
+	.uleb128 0x39
+	.uleb128 0xb
+	.uleb128 0x27
+	.uleb128 0x19
+	.uleb128 0x49
+	.uleb128 0x13
+	.uleb128 0x3c
+	.uleb128 0x19
+	.uleb128 0x1
+	.uleb128 0x13
+	.byte	0
+	.byte	0
+	.uleb128 0x4
+	.uleb128 0x16
+	.byte	0
+	.uleb128 0x3
+	.uleb128 0xe
+	.uleb128 0x3a
+	.uleb128 0x21
+	.sleb128 3
+	.uleb128 0x3b
+	.uleb128 0x5
+	.uleb128 0x39
+	.uleb128 0xb
+	.uleb128 0x49
+	.uleb128 0x13
+	.byte	0
+	.byte	0
+	.uleb128 0x5
+	.uleb128 0xd
+	.byte	0
+	.uleb128 0x3
+	.uleb128 0xe
+	.uleb128 0x3a
+	.uleb128 0x21
+	.sleb128 5
+	.uleb128 0x3b
+	.uleb128 0xb
+	.uleb128 0x39
+	.uleb128 0xb
+	.uleb128 0x49
+	.uleb128 0x13
+	.uleb128 0x38
+	.uleb128 0xb
+	.byte	0
+	.byte	0
+	.uleb128 0x6
+	.uleb128 0x34
+	.byte	0
+	.uleb128 0x3
+	.uleb128 0x8
+	.uleb128 0x3a
+	.uleb128 0x21
+	.sleb128 1
+	.uleb128 0x3b
+	.uleb128 0xb
+	.uleb128 0x39
+	.uleb128 0xb
+	.uleb128 0x49
+	.uleb128 0x13
+	.uleb128 0x2
+	.uleb128 0x18
+	.byte	0
+	.byte	0
+	.uleb128 0x7
+	.uleb128 0xf
+	.byte	0
+	.uleb128 0xb
+	.uleb128 0x21
+	.sleb128 8
+	.uleb128 0x49
+	.uleb128 0x13
+	.byte	0
+	.byte	0
+	.uleb128 0x8
+	.uleb128 0x16
+	.byte	0
+	.uleb128 0x3
+	.uleb128 0xe
+	.uleb128 0x3a
+	.uleb128 0xb
+	.uleb128 0x3b
+	.uleb128 0xb
+	.uleb128 0x39
+	.uleb128 0xb
+	.uleb128 0x49
+	.uleb128 0x13
+	.byte	0
+	.byte	0
+	.uleb128 0x9
+	.uleb128 0x2e
+	.byte	0x1
+	.uleb128 0x3f
+	.uleb128 0x19
+	.uleb128 0x3
+	.uleb128 0xe
+	.uleb128 0x3a
+	.uleb128 0x21
+	.sleb128 6
+	.uleb128 0x3b
+	.uleb128 0xb
+	.uleb128 0x39
+	.uleb128 0x21
+	.sleb128 6
+	.uleb128 0x27
+	.uleb128 0x19
+	.uleb128 0x3c
+	.uleb128 0x19
+	.uleb128 0x1
+	.uleb128 0x13
+	.byte	0
+	.byte	0
+	.uleb128 0xa
+	.uleb128 0x2e
+	.byte	0
+	.uleb128 0x3f
+	.uleb128 0x19
+	.uleb128 0x3
+	.uleb128 0xe
+	.uleb128 0x3a
+	.uleb128 0x21
+	.sleb128 6
+	.uleb128 0x3b
+	.uleb128 0xb
+	.uleb128 0x39
+	.uleb128 0x21
+	.sleb128 6
+	.uleb128 0x27
+	.uleb128 0x19
+	.uleb128 0x3c
+	.uleb128 0x19
+	.byte	0
+	.byte	0
+	.uleb128 0xb
+	.uleb128 0x2e
+	.byte	0x1
+	.uleb128 0x3
+	.uleb128 0xe
+	.uleb128 0x3a
+	.uleb128 0x21
+	.sleb128 1
+	.uleb128 0x3b
+	.uleb128 0xb
+	.uleb128 0x39
+	.uleb128 0x21
+	.sleb128 1
+	.uleb128 0x27
+	.uleb128 0x19
+	.uleb128 0x11
+	.uleb128 0x1
+	.uleb128 0x12
+	.uleb128 0x7
+	.uleb128 0x40
+	.uleb128 0x18
+	.uleb128 0x7c
+	.uleb128 0x19
+	.uleb128 0x1
+	.uleb128 0x13
+	.byte	0
+	.byte	0
+	.uleb128 0xc
+	.uleb128 0x11
+	.byte	0x1
+	.uleb128 0x25
+	.uleb128 0xe
+	.uleb128 0x13
+	.uleb128 0xb
+	.uleb128 0x3
+	.uleb128 0x1f
+	.uleb128 0x1b
+	.uleb128 0x1f
+	.uleb128 0x11
+	.uleb128 0x1
+	.uleb128 0x12
+	.uleb128 0x7
+	.uleb128 0x10
+	.uleb128 0x17
+	.byte	0
+	.byte	0
+	.uleb128 0xd
+	.uleb128 0x24
+	.byte	0
+	.uleb128 0xb
+	.uleb128 0xb
+	.uleb128 0x3e
+	.uleb128 0xb
+	.uleb128 0x3
+	.uleb128 0x8
+	.byte	0
+	.byte	0
+	.uleb128 0xe
+	.uleb128 0x13
+	.byte	0x1
+	.uleb128 0x3
+	.uleb128 0xe
+	.uleb128 0xb
+	.uleb128 0xb
+	.uleb128 0x3a
+	.uleb128 0xb
+	.uleb128 0x3b
+	.uleb128 0xb
+	.uleb128 0x39
+	.uleb128 0xb
+	.uleb128 0x1
+	.uleb128 0x13
+	.byte	0
+	.byte	0
+	.uleb128 0xf
+	.uleb128 0x1
+	.byte	0x1
+	.uleb128 0x49
+	.uleb128 0x13
+	.uleb128 0x1
+	.uleb128 0x13
+	.byte	0
+	.byte	0
+	.uleb128 0x10
+	.uleb128 0x21
+	.byte	0
+	.uleb128 0x49
+	.uleb128 0x13
+	.uleb128 0x2f
+	.uleb128 0xb
+	.byte	0
+	.byte	0
+	.uleb128 0x11
+	.uleb128 0x34
+	.byte	0
+	.uleb128 0x3
+	.uleb128 0xe
+	.uleb128 0x3a
+	.uleb128 0xb
+	.uleb128 0x3b
+	.uleb128 0xb
+	.uleb128 0x39
+	.uleb128 0xb
+	.uleb128 0x49
+	.uleb128 0x13
+	.uleb128 0x3f
+	.uleb128 0x19
+	.uleb128 0x3c
+	.uleb128 0x19
+	.byte	0
+	.byte	0
+	.uleb128 0x12
+	.uleb128 0x15
+	.byte	0
+	.uleb128 0x27
+	.uleb128 0x19
+	.byte	0
+	.byte	0
+	.uleb128 0x13
+	.uleb128 0xb
+	.byte	0x1
+	.uleb128 0x11
+	.uleb128 0x1
+	.uleb128 0x12
+	.uleb128 0x7
+	.byte	0
+	.byte	0
+	.uleb128 0x14
+	.uleb128 0x5
+	.byte	0
+	.uleb128 0x3
+	.uleb128 0xe
+	.uleb128 0x3a
+	.uleb128 0xb
+	.uleb128 0x3b
+	.uleb128 0xb
+	.uleb128 0x39
+	.uleb128 0xb
+	.uleb128 0x49
+	.uleb128 0x13
+	.uleb128 0x2
+	.uleb128 0x18
+	.byte	0
+	.byte	0
+	.uleb128 0x15
+	.uleb128 0x34
+	.byte	0
+	.uleb128 0x3
+	.uleb128 0xe
+	.uleb128 0x3a
+	.uleb128 0xb
+	.uleb128 0x3b
+	.uleb128 0xb
+	.uleb128 0x39
+	.uleb128 0xb
+	.uleb128 0x49
+	.uleb128 0x13
+	.uleb128 0x2
+	.uleb128 0x18
+	.byte	0
+	.byte	0
+	.uleb128 0x16
+	.uleb128 0x2e
+	.byte	0
+	.uleb128 0x3
+	.uleb128 0xe
+	.uleb128 0x3a
+	.uleb128 0xb
+	.uleb128 0x3b
+	.uleb128 0xb
+	.uleb128 0x39
+	.uleb128 0xb
+	.uleb128 0x27
+	.uleb128 0x19
+	.uleb128 0x11
+	.uleb128 0x1
+	.uleb128 0x12
+	.uleb128 0x7
+	.uleb128 0x40
+	.uleb128 0x18
+	.uleb128 0x7c
+	.uleb128 0x19
+	.byte	0
+	.byte	0
+	.uleb128 0x17
+	.uleb128 0x2e
+	.byte	0
+	.uleb128 0x3f
+	.uleb128 0x19
+	.uleb128 0x3
+	.uleb128 0xe
+	.uleb128 0x3a
+	.uleb128 0xb
+	.uleb128 0x3b
+	.uleb128 0xb
+	.uleb128 0x39
+	.uleb128 0xb
+	.uleb128 0x11
+	.uleb128 0x1
+	.uleb128 0x12
+	.uleb128 0x7
+	.uleb128 0x40
+	.uleb128 0x18
+	.uleb128 0x7c
+	.uleb128 0x19
+	.byte	0
+	.byte	0
+	.byte	0
+	.section	.debug_aranges,"",@progbits
+	.long	0x2c
+	.value	0x2
+	.long	.Ldebug_info0
+	.byte	0x8
+	.byte	0
+	.value	0
+	.value	0
+	.quad	.Ltext0
+	.quad	.Letext0-.Ltext0
+	.quad	0
+	.quad	0
+	.section	.debug_line,"",@progbits
+.Ldebug_line0:
+	.section	.debug_str,"MS",@progbits,1
+.LASF22:
+	.string	"placev"
+.LASF45:
+	.string	"testToFromString"
+.LASF13:
+	.string	"size_t"
+.LASF19:
+	.string	"isNeg"
+.LASF18:
+	.string	"BInt"
+.LASF17:
+	.string	"String"
+.LASF36:
+	.string	"fini"
+.LASF43:
+	.string	"bint0"
+.LASF37:
+	.string	"init"
+.LASF14:
+	.string	"UNotAsLong"
+.LASF28:
+	.string	"bintBit"
+.LASF10:
+	.string	"float"
+.LASF24:
+	.string	"bintEQ"
+.LASF2:
+	.string	"unsigned char"
+.LASF39:
+	.string	"testCanonical"
+.LASF15:
+	.string	"Bool"
+.LASF5:
+	.string	"long unsigned int"
+.LASF3:
+	.string	"short unsigned int"
+.LASF25:
+	.string	"bintPlus"
+.LASF41:
+	.string	"GNU C99 12.2.0 -mtune=generic -march=x86-64 -g -O0 -std=c99 -fasynchronous-unwind-tables"
+.LASF35:
+	.string	"showTest"
+.LASF11:
+	.string	"double"
+.LASF7:
+	.string	"short int"
+.LASF32:
+	.string	"strConcat"
+.LASF4:
+	.string	"unsigned int"
+.LASF9:
+	.string	"char"
+.LASF42:
+	.string	"bint"
+.LASF26:
+	.string	"bintIsNeg"
+.LASF34:
+	.string	"bintFrString"
+.LASF27:
+	.string	"bintIsPos"
+.LASF12:
+	.string	"long long int"
+.LASF31:
+	.string	"testStringEqual"
+.LASF29:
+	.string	"bintNew"
+.LASF44:
+	.string	"nText"
+.LASF23:
+	.string	"BIntS"
+.LASF20:
+	.string	"placea"
+.LASF21:
+	.string	"placec"
+.LASF8:
+	.string	"long int"
+.LASF16:
+	.string	"Length"
+.LASF38:
+	.string	"testBIntNew"
+.LASF6:
+	.string	"signed char"
+.LASF33:
+	.string	"bintToString"
+.LASF40:
+	.string	"asText"
+.LASF30:
+	.string	"testTrue"
+.LASF46:
+	.string	"bintTestSuite"
+	.section	.debug_line_str,"MS",@progbits,1
+.LASF1:
+	.string	"/repo/aldor/aldor/src"
+.LASF0:
+	.string	"test/test_bigint.c"
+	.ident	"GCC: (Debian 12.2.0-14+deb12u1) 12.2.0"
+	.section	.note.GNU-stack,"",@progbits
